@@ -1,7 +1,7 @@
 (* C01: source semantics = semantics of the emitted instruction list, for every script on which the two executable
    validators (relation checker, render check) accept the model's own chunk graph and code. *)
 From Coq Require Import List String Ascii ZArith NArith Lia Bool.
-From Pory Require Import Lexer Ast Emitter Sem2 SemTgt Tr Check C01Proofs EmitProps RenderSim RenderCheck.
+From Pory Require Import Lexer Ast Emitter Sem2 SemTgt Tr Check C01Proofs EmitProps RenderSim RenderCheck LabelSim.
 Import ListNotations.
 Open Scope list_scope.
 Opaque work_fuel emit_graph work opt_order order_of render_chunks.
@@ -76,6 +76,66 @@ Proof.
   intros HW H0 H1 HC R0 R1 HS L1 L2.
   destruct (emit_script_correct_checked mp tl name glob false body w code0 find_label fuel HW H0 HC R0 HS L1 L2) as [F0 B0].
   destruct (emit_script_correct_checked mp tl name glob true body w code1 find_label fuel HW H1 HC R1 HS L1 L2) as [F1 B1].
+  split; intros m s.
+  - destruct (B0 m s) as (n & R). destruct (F1 n s) as (m' & E). exists m'. rewrite <- E. exact R.
+  - destruct (B1 m s) as (n & R). destruct (F0 n s) as (m' & E). exists m'. rewrite <- E. exact R.
+Qed.
+
+(* the third validator: switches well formed, chunk labels distinct and all found in the body *)
+Definition labels_okb (body : list stmt) (G : list chunk) : bool :=
+  swfb body && nodupt (chunk_labels G) &&
+  forallb (fun n => match fl_body n body Kstop with Some _ => true | None => false end) (chunk_labels G).
+
+(* THE THEOREM of C01 with no semantic hypothesis left: `goto L` in the source resumes at the state fl_body computes;
+   premises are the three executable validators and well-scopedness (a theorem for every accepted program) *)
+Theorem emit_script_correct_validated
+  (mp : option text) (tl : list text) (name : text) (glob optimize : bool) (body : list stmt)
+  (w : wst) (code : list instr) (fuel : nat) :
+  emit_graph body = Ok w ->
+  emit_script mp tl name glob optimize body = Ok code ->
+  chk_block (finals w) (brk w) (org w) fuel body 0 (-1) = true ->
+  wf_render mp name (finals w) (order_of optimize (finals w)) code = true ->
+  labels_okb body (finals w) = true ->
+  scoped None None body ->
+  (forall n s, exists m,
+      run sfinal (sstep (fun l => fl_body l body Kstop)) n (enter body Kstop) s = run (@tfinal) (tstep code) m (jump code name) s) /\
+  (forall m s, exists n,
+      res_le (run (@tfinal) (tstep code) m (jump code name) s) (run sfinal (sstep (fun l => fl_body l body Kstop)) n (enter body Kstop) s)).
+Proof.
+  intros HW HE HC HR HL HS.
+  assert (GI : forall i c, get_chunk (finals w) i = Some c -> (0 <= i)%Z).
+  { intros i c Hc. pose proof HR as HR'. unfold wf_render in HR'. andb HR'.
+    match goal with K : forallb (fun c => zmem (cid c) _) (finals w) = true |- _ => rename K into K4 end.
+    match goal with K : forallb (fun d => (0 <=? d)%Z && _) _ = true |- _ => rename K into K3 end.
+    rewrite forallb_forall in K3, K4. pose proof (get_chunk_in _ _ _ Hc) as I. pose proof (get_chunk_cid _ _ _ Hc) as E.
+    specialize (K4 c I). apply zmem_in in K4. rewrite E in K4. specialize (K3 i K4). apply andb_prop in K3. destruct K3 as [P _].
+    apply Z.leb_le. exact P. }
+  unfold labels_okb in HL. apply andb_prop in HL. destruct HL as [HL L3]. apply andb_prop in HL. destruct HL as [L1 L2].
+  eapply emit_script_correct_checked; eauto.
+  - eapply label_lookup_agrees_holds; eauto.
+    + eapply check_tr_sound; eauto.
+    + apply nodupt_sound. exact L2.
+    + intros n Hn. rewrite forallb_forall in L3. specialize (L3 n Hn). destruct (fl_body n body Kstop); [discriminate|discriminate L3].
+  - apply label_lookup_scoped_holds. exact HS.
+Qed.
+
+Corollary optimize_equiv_validated
+  (mp : option text) (tl : list text) (name : text) (glob : bool) (body : list stmt)
+  (w : wst) (code0 code1 : list instr) (fuel : nat) :
+  emit_graph body = Ok w ->
+  emit_script mp tl name glob false body = Ok code0 ->
+  emit_script mp tl name glob true body = Ok code1 ->
+  chk_block (finals w) (brk w) (org w) fuel body 0 (-1) = true ->
+  wf_render mp name (finals w) (order_of false (finals w)) code0 = true ->
+  wf_render mp name (finals w) (order_of true (finals w)) code1 = true ->
+  labels_okb body (finals w) = true ->
+  scoped None None body ->
+  (forall m s, exists m', res_le (run (@tfinal) (tstep code0) m (jump code0 name) s) (run (@tfinal) (tstep code1) m' (jump code1 name) s)) /\
+  (forall m s, exists m', res_le (run (@tfinal) (tstep code1) m (jump code1 name) s) (run (@tfinal) (tstep code0) m' (jump code0 name) s)).
+Proof.
+  intros HW H0 H1 HC R0 R1 HL HS.
+  destruct (emit_script_correct_validated mp tl name glob false body w code0 fuel HW H0 HC R0 HL HS) as [F0 B0].
+  destruct (emit_script_correct_validated mp tl name glob true body w code1 fuel HW H1 HC R1 HL HS) as [F1 B1].
   split; intros m s.
   - destruct (B0 m s) as (n & R). destruct (F1 n s) as (m' & E). exists m'. rewrite <- E. exact R.
   - destruct (B1 m s) as (n & R). destruct (F0 n s) as (m' & E). exists m'. rewrite <- E. exact R.
